@@ -28,6 +28,7 @@ func genC13(r *core.Rand, env *core.Env, run int) *Scenario {
 	sc.Knobs = Knobs{ShardNum: pick(r, []int{1, 1, 2, 2, 3}), Databases: 1, YieldRMW: r.Bool(0.5), MaxSteps: 8000,
 		Strategy: pick(r, []int{0, 0, 1, 2, 3}), PreemptPct: pick(r, []int{15, 30, 60})}
 	sc.Knobs.ReplyYield = r.Bool(0.4)
+	sc.Knobs.WriterPref = r.Bool(0.5)
 	profile := pick(r, []string{"string", "list", "set", "mixed"})
 	keys := []string{"a", "b", "c", "d"}[:2+r.Intn(3)]
 	fam := map[string]string{}
